@@ -473,27 +473,29 @@ def _pass_inline_setters(fn, cls: Optional[ast.ClassDef]) -> bool:
 def normalize_tree(tree: ast.Module) -> ast.Module:
     tree = copy.deepcopy(tree)
 
-    def visit(body, cls):
+    def visit(body, cls, outer):
         for st in body:
             if isinstance(st, FuncNode):
-                for _ in range(12):
+                ctx = _Ctx(tree, cls, outer)
+                for _ in range(40):
                     ch = _pass_inline_setters(st, cls)
+                    ch = ch or _pass_inline_helpers(st, ctx)
                     ch |= _pass_store_then_read(st)
                     ch |= _pass_copy_prop(st)
                     if not ch:
                         break
-                visit(st.body, None)
+                visit(st.body, cls, outer + [st])
             elif isinstance(st, ast.ClassDef):
-                visit(st.body, st)
+                visit(st.body, st, [])
             else:
                 for fld in ("body", "orelse", "finalbody"):
                     sub = getattr(st, fld, None)
                     if isinstance(sub, list) and sub and isinstance(sub[0], ast.stmt):
-                        visit(sub, cls)
+                        visit(sub, cls, outer)
                 for h in getattr(st, "handlers", []) or []:
-                    visit(h.body, cls)
+                    visit(h.body, cls, outer)
 
-    visit(tree.body, None)
+    visit(tree.body, None, [])
     ast.fix_missing_locations(tree)
     return tree
 
@@ -518,3 +520,443 @@ def normalized(repo: Repo, relpaths) -> Repo:
             _MOD_CACHE[key] = tree
         r = r.with_module(rel, tree=tree)
     return r
+
+
+# ---------------------------------------------------------------------------
+# N6 / N7: private helper inlining (function splitting) and callbacks moved to methods
+#
+# N6  a call of a *private* helper of the same class / same enclosing function / same module — not one of the
+#     functions the rules anchor on by name (PROTECTED) — is replaced by the helper's body:
+#       statement call            self._h(a)            -> body            (all returns bare and in tail position)
+#       T = self._h(a) / return   T = ... / return ...   -> body, `return e` -> `T = e` / `return e` (returns in tail position)
+#       call inside an expression  f(self._h(a))         -> the helper's body as one expression (if/return chain ->
+#                                                           conditional expression), else hoisted into a temporary
+#     Parameters are substituted when the argument is a constant or a path and the parameter is never re-bound,
+#     otherwise bound by an assignment; helper locals that clash with names of the caller are renamed.
+# N7  `functools.partial(self._m, a..)` and a bare bound method `self._m` passed as an argument are replaced by a
+#     nested function with the method's body (the closure the method was extracted from).
+
+PROTECTED = {
+    "_garbage_collect", "_consume_expired", "__put_internal", "_put", "_get", "_init", "_set_timeout", "_format", "_create_future",
+    "_value_from_stopiteration", "_wrap_awaitable", "_done_callback", "_return_result", "_fake_ctx_run", "_run_callback",
+    "_discard_future_result", "_schedule_next", "_update_next", "_run", "_register_task", "_unregister_task", "_make_current",
+    "_clear_current", "_clear_current_hook", "_handle_events", "_null_future", "_convert_header_value",
+}
+
+_counter = [0]
+
+
+def _fresh(prefix):
+    _counter[0] += 1
+    return "%s__h%d" % (prefix, _counter[0])
+
+
+def _is_private(name):
+    return name.startswith("_") and not (name.startswith("__") and name.endswith("__"))
+
+
+def _callee_ok(fn) -> bool:
+    if not isinstance(fn, FuncNode):
+        return False
+    decs = [q.dotted(d) for d in fn.decorator_list]
+    if any(d not in ("staticmethod",) for d in decs):
+        return False
+    a = fn.args
+    if a.vararg or a.kwarg or a.posonlyargs or a.kwonlyargs:
+        return False
+    for n in _own_nodes(fn):
+        if isinstance(n, (ast.Yield, ast.YieldFrom, ast.Global, ast.Nonlocal)):
+            return False
+    # not recursive
+    for n in ast.walk(fn):
+        if isinstance(n, ast.Call) and (q.call_attr(n) == fn.name):
+            return False
+    return True
+
+
+def _body_no_doc(fn):
+    b = list(fn.body)
+    if b and isinstance(b[0], ast.Expr) and isinstance(b[0].value, ast.Constant) and isinstance(b[0].value.value, str):
+        b = b[1:]
+    return b
+
+
+def _returns(stmts):
+    out = []
+    for st in stmts:
+        for n in [st] + list(_own_nodes_of_stmt(st)):
+            if isinstance(n, ast.Return):
+                out.append(n)
+    return out
+
+
+def _tail_returns_only(stmts) -> bool:
+    """Every return is in tail position of the statement list (possibly inside if/else chains in tail position)."""
+    rets = _returns(stmts)
+    if not rets:
+        return True
+    ok_ids = set()
+
+    def mark(block):
+        if not block:
+            return
+        last = block[-1]
+        if isinstance(last, ast.Return):
+            ok_ids.add(id(last))
+        elif isinstance(last, ast.If):
+            mark(last.body)
+            mark(last.orelse)
+
+    mark(stmts)
+    # an `if c: return a` followed by more statements is also structured: rewrite as if/else first
+    return all(id(r) in ok_ids for r in rets)
+
+
+def _structure_early_returns(stmts):
+    """[if c: ...; return a] rest  ->  [if c: ...; return a  else: rest]   (when the if-body always returns)"""
+    out = list(stmts)
+    i = 0
+    while i < len(out):
+        st = out[i]
+        if isinstance(st, ast.If):
+            st.body = _structure_early_returns(st.body)
+            st.orelse = _structure_early_returns(st.orelse)
+            if _always_returns(st.body) and not st.orelse and i + 1 < len(out):
+                st.orelse = _structure_early_returns(out[i + 1:])
+                out = out[:i + 1]
+                break
+            if st.orelse and _always_returns(st.orelse) and not _always_returns(st.body) and i + 1 < len(out):
+                st.body = st.body + _structure_early_returns(copy.deepcopy(out[i + 1:])) if False else st.body
+        i += 1
+    return out
+
+
+def _always_returns(block) -> bool:
+    if not block:
+        return False
+    last = block[-1]
+    if isinstance(last, (ast.Return, ast.Raise)):
+        return True
+    if isinstance(last, ast.If):
+        return _always_returns(last.body) and _always_returns(last.orelse)
+    return False
+
+
+def _as_expression(stmts) -> Optional[ast.AST]:
+    """The statement list as a single expression, if it is an if/return chain."""
+    if len(stmts) == 1 and isinstance(stmts[0], ast.Return) and stmts[0].value is not None:
+        return stmts[0].value
+    if len(stmts) == 1 and isinstance(stmts[0], ast.If):
+        a = _as_expression(stmts[0].body)
+        b = _as_expression(stmts[0].orelse)
+        if a is not None and b is not None:
+            return ast.IfExp(test=stmts[0].test, body=a, orelse=b)
+    return None
+
+
+class _Subst(ast.NodeTransformer):
+    def __init__(self, names: Dict[str, ast.AST], rename: Dict[str, str]):
+        self.names = names
+        self.rename = rename
+
+    def visit_Name(self, node):
+        if node.id in self.names and isinstance(node.ctx, ast.Load):
+            return copy.deepcopy(self.names[node.id])
+        if node.id in self.rename:
+            return ast.copy_location(ast.Name(id=self.rename[node.id], ctx=node.ctx), node)
+        return node
+
+    def visit_arg(self, node):
+        return node
+
+
+def _bind(callee, call: ast.Call, drop_self: bool, caller_names: Set[str], pre_bound: Optional[List[ast.AST]] = None):
+    """-> (prefix statements, substituted body) or None"""
+    params = [a.arg for a in callee.args.args]
+    if drop_self:
+        if not params:
+            return None
+        params = params[1:]
+    defaults = callee.args.defaults
+    dmap = {}
+    all_params = [a.arg for a in callee.args.args]
+    for p, d in zip(reversed(all_params), reversed(defaults)):
+        dmap[p] = d
+    args = list(pre_bound or []) + list(call.args)
+    if any(isinstance(a, ast.Starred) for a in args) or any(k.arg is None for k in call.keywords):
+        return None
+    if len(args) > len(params):
+        return None
+    amap: Dict[str, ast.AST] = {}
+    for p, a in zip(params, args):
+        amap[p] = a
+    for k in call.keywords:
+        if k.arg not in params or k.arg in amap:
+            return None
+        amap[k.arg] = k.value
+    for p in params:
+        if p not in amap:
+            if p in dmap:
+                amap[p] = dmap[p]
+            else:
+                return None
+    body = copy.deepcopy(_body_no_doc(callee))
+    stored = set()
+    for st in body:
+        for n in [st] + list(_own_nodes_of_stmt(st)):
+            if isinstance(n, (ast.stmt, ast.ExceptHandler)):
+                stored |= {p for p in _stored_paths(n) if p.isidentifier()}
+            if isinstance(n, ast.comprehension):
+                stored |= {t.id for t in ast.walk(n.target) if isinstance(t, ast.Name)}
+    subst: Dict[str, ast.AST] = {}
+    rename: Dict[str, str] = {}
+    prefix: List[ast.stmt] = []
+    for p in params:
+        a = amap[p]
+        uses = sum(1 for st in body for n in ast.walk(st) if isinstance(n, ast.Name) and n.id == p and isinstance(n.ctx, ast.Load))
+        simple = isinstance(a, ast.Constant) or (_path_text(a) is not None and _path_text(a).split(".")[0].split("[")[0] not in stored)
+        if p not in stored and (simple or uses <= 1 and _is_pure(a)[0]):
+            subst[p] = a
+        else:
+            new = _fresh(p)
+            rename[p] = new
+            prefix.append(ast.Assign(targets=[ast.Name(id=new, ctx=ast.Store())], value=copy.deepcopy(a)))
+    for nm in stored:
+        if nm in params:
+            continue
+        if nm in caller_names:
+            rename[nm] = _fresh(nm)
+    tr = _Subst(subst, rename)
+    body = [tr.visit(st) for st in body]
+    return prefix, body
+
+
+def _caller_names(fn) -> Set[str]:
+    out = set(_params(fn))
+    for n in _own_nodes(fn):
+        if isinstance(n, ast.Name):
+            out.add(n.id)
+    return out
+
+
+def _replace_returns(stmts, make):
+    """Replace tail-position returns by make(value) statements (in place)."""
+    if not stmts:
+        return
+    last = stmts[-1]
+    if isinstance(last, ast.Return):
+        stmts[-1:] = make(last.value)
+    elif isinstance(last, ast.If):
+        _replace_returns(last.body, make)
+        if last.orelse:
+            _replace_returns(last.orelse, make)
+        else:
+            last.orelse = make(None)
+
+
+def _loc(stmts, at):
+    for st in stmts:
+        for x in ast.walk(st):
+            ast.copy_location(x, at)
+    return stmts
+
+
+class _Ctx:
+    def __init__(self, module: ast.Module, cls: Optional[ast.ClassDef], outer: List[ast.AST]):
+        self.module = module
+        self.cls = cls
+        self.outer = outer  # enclosing functions, innermost last
+
+    def resolve(self, func_expr, in_fn) -> Tuple[Optional[ast.AST], bool]:
+        """(callee def, drop_self)"""
+        if isinstance(func_expr, ast.Attribute) and isinstance(func_expr.value, ast.Name) and func_expr.value.id == "self" and self.cls is not None:
+            nm = func_expr.attr
+            if not _is_private(nm) or nm in PROTECTED:
+                return None, False
+            for m in self.cls.body:
+                if isinstance(m, FuncNode) and m.name == nm and m is not in_fn and _callee_ok(m):
+                    static = any(q.dotted(d) == "staticmethod" for d in m.decorator_list)
+                    return m, not static
+            return None, False
+        if isinstance(func_expr, ast.Name):
+            nm = func_expr.id
+            if nm in PROTECTED:
+                return None, False
+            # nested def of an enclosing function (any name), defined in its own scope
+            for f in reversed(self.outer + [in_fn]):
+                for n in _own_nodes(f):
+                    if isinstance(n, FuncNode) and n.name == nm and n is not in_fn and _callee_ok(n):
+                        return n, False
+            if _is_private(nm):
+                for n in self.module.body:
+                    if isinstance(n, FuncNode) and n.name == nm and n is not in_fn and _callee_ok(n):
+                        return n, False
+        return None, False
+
+
+def _pass_inline_helpers(fn, ctx: "_Ctx") -> bool:
+    idx = _Index(fn)
+    names = None
+    for st in list(idx.stmts):
+        if isinstance(st, ast.ExceptHandler) or isinstance(st, FuncNode + (ast.ClassDef,)):
+            continue
+        b, i = idx.block_and_index(st)
+        if b is None:
+            continue
+        # ---- statement call / awaited statement call
+        call = None
+        mode = None
+        if isinstance(st, ast.Expr):
+            v = st.value.value if isinstance(st.value, ast.Await) else st.value
+            if isinstance(v, ast.Call):
+                call, mode = v, "S"
+        elif isinstance(st, (ast.Assign, ast.AnnAssign)) and getattr(st, "value", None) is not None:
+            v = st.value.value if isinstance(st.value, ast.Await) else st.value
+            single = (isinstance(st, ast.Assign) and len(st.targets) == 1) or isinstance(st, ast.AnnAssign)
+            if isinstance(v, ast.Call) and single:
+                call, mode = v, "A"
+        elif isinstance(st, ast.Return) and st.value is not None:
+            v = st.value.value if isinstance(st.value, ast.Await) else st.value
+            if isinstance(v, ast.Call):
+                call, mode = v, "R"
+        if call is not None:
+            callee, drop_self = ctx.resolve(call.func, fn)
+            if callee is not None and (isinstance(callee, ast.AsyncFunctionDef) == isinstance(getattr(st, "value", None), ast.Await)):
+                names = names or _caller_names(fn)
+                bound = _bind(callee, call, drop_self, names)
+                if bound is not None:
+                    prefix, body = bound
+                    body = _structure_early_returns(body)
+                    if _tail_returns_only(body):
+                        rets = _returns(body)
+                        if mode == "S" and all(r.value is None or q.is_const(r.value, None) for r in rets):
+                            _replace_returns(body, lambda v: [ast.Pass()])
+                            b[i:i + 1] = _loc(prefix + (body or [ast.Pass()]), st)
+                            return True
+                        if mode == "A":
+                            tgt = st.targets[0] if isinstance(st, ast.Assign) else st.target
+                            _replace_returns(body, lambda v, tgt=tgt: [ast.Assign(targets=[copy.deepcopy(tgt)], value=v if v is not None else ast.Constant(value=None))])
+                            if not _always_assigns(body):
+                                body.append(ast.Assign(targets=[copy.deepcopy(tgt)], value=ast.Constant(value=None))) if not body or not isinstance(body[-1], (ast.If, ast.Assign)) else None
+                            b[i:i + 1] = _loc(prefix + body, st)
+                            return True
+                        if mode == "R":
+                            if not _always_returns(body):
+                                body.append(ast.Return(value=None))
+                            b[i:i + 1] = _loc(prefix + body, st)
+                            return True
+        # ---- helper call nested inside a simple statement's expression: expression form, else hoist
+        if isinstance(st, (ast.Expr, ast.Assign, ast.AnnAssign, ast.AugAssign, ast.Return)):
+            root = st.value if not isinstance(st, ast.Expr) else st.value
+            if root is None:
+                continue
+            found = None
+            parents = {}
+            for n in ast.walk(root):
+                for c in ast.iter_child_nodes(n):
+                    parents[id(c)] = n
+            for n in ast.walk(root):
+                if isinstance(n, ast.Call) and n is not root and not (isinstance(root, ast.Await) and n is root.value):
+                    callee, drop_self = ctx.resolve(n.func, fn)
+                    if callee is None or isinstance(callee, ast.AsyncFunctionDef):
+                        continue
+                    # not under conditional evaluation / another scope
+                    p = parents.get(id(n))
+                    cond = False
+                    while p is not None:
+                        if isinstance(p, (ast.Lambda, ast.IfExp, ast.BoolOp, ast.ListComp, ast.SetComp, ast.DictComp, ast.GeneratorExp)):
+                            cond = True
+                        p = parents.get(id(p))
+                    if cond:
+                        continue
+                    found = (n, callee, drop_self)
+                    break
+            if found is not None:
+                n, callee, drop_self = found
+                names = names or _caller_names(fn)
+                bound = _bind(callee, n, drop_self, names)
+                if bound is not None:
+                    prefix, body = bound
+                    body = _structure_early_returns(body)
+                    e = _as_expression(body) if not prefix else None
+                    if e is not None:
+                        _swap_node(st, n, e)
+                        return True
+                    tmp = _fresh("t")
+                    new_assign = ast.Assign(targets=[ast.Name(id=tmp, ctx=ast.Store())], value=n)
+                    _swap_node(st, n, ast.Name(id=tmp, ctx=ast.Load()))
+                    b[i:i] = _loc([new_assign], st)
+                    return True
+        # ---- N7: callbacks moved to methods
+        for n in list(_own_nodes_of_stmt(st)) if not isinstance(st, (ast.If, ast.While, ast.For, ast.Try, ast.With)) else []:
+            target = None
+            pre = []
+            if isinstance(n, ast.Call) and q.dotted(n.func) in ("functools.partial", "partial") and n.args and not n.keywords:
+                target, pre = n.args[0], list(n.args[1:])
+                site = n
+            elif isinstance(n, ast.Call):
+                hit = None
+                for a in n.args:
+                    if isinstance(a, ast.Attribute) and isinstance(a.value, ast.Name) and a.value.id == "self" and q.dotted(n.func) not in ("functools.partial", "partial"):
+                        hit = a
+                if hit is None:
+                    continue
+                target, pre, site = hit, [], hit
+            else:
+                continue
+            if not (isinstance(target, ast.Attribute) and isinstance(target.value, ast.Name) and target.value.id == "self"):
+                continue
+            callee, drop_self = ctx.resolve(target, fn)
+            if callee is None or not drop_self or isinstance(callee, ast.AsyncFunctionDef):
+                continue
+            params = [a.arg for a in callee.args.args][1:]
+            if len(pre) > len(params) or any(isinstance(a, ast.Starred) for a in pre):
+                continue
+            names = names or _caller_names(fn)
+            fake = ast.Call(func=target, args=[ast.Name(id=p, ctx=ast.Load()) for p in params[len(pre):]], keywords=[])
+            bound = _bind(callee, fake, True, names - set(params[len(pre):]), pre_bound=pre)
+            if bound is None:
+                continue
+            prefix, body = bound
+            cbname = _fresh(callee.name.lstrip("_") or "cb")
+            rest = copy.deepcopy(callee.args)
+            rest.args = rest.args[1 + len(pre):]
+            rest.defaults = rest.defaults[-len(rest.args):] if rest.args and rest.defaults else []
+            newdef = ast.FunctionDef(name=cbname, args=rest, body=(prefix + body) or [ast.Pass()], decorator_list=[], returns=None, type_comment=None, type_params=[])
+            _swap_node(st, site, ast.Name(id=cbname, ctx=ast.Load()))
+            b[i:i] = _loc([newdef], st)
+            return True
+    return False
+
+
+def _always_assigns(body) -> bool:
+    if not body:
+        return False
+    last = body[-1]
+    if isinstance(last, ast.Assign):
+        return True
+    if isinstance(last, ast.If):
+        return _always_assigns(last.body) and _always_assigns(last.orelse)
+    if isinstance(last, ast.Raise):
+        return True
+    return False
+
+
+def _swap_node(root_stmt, old, new):
+    class T(ast.NodeTransformer):
+        def generic_visit(self, node):
+            for fld, val in ast.iter_fields(node):
+                if isinstance(val, list):
+                    for k, x in enumerate(val):
+                        if x is old:
+                            val[k] = ast.copy_location(new, old)
+                        elif isinstance(x, ast.AST):
+                            self.generic_visit(x)
+                elif val is old:
+                    setattr(node, fld, ast.copy_location(new, old))
+                elif isinstance(val, ast.AST):
+                    self.generic_visit(val)
+            return node
+    T().generic_visit(root_stmt)
+    for x in ast.walk(new):
+        ast.copy_location(x, old)
